@@ -125,7 +125,7 @@ def _private_callee(repo, rel, func, call):
     return cands[0]
 
 
-def expand_private_calls(repo, rel, func):
+def expand_private_calls(repo, rel, func, keep=()):
     """A copy of `func` in which every statement `self._helper(...)` /
     `x = self._helper(...)` is replaced by the helper's body (parameters
     bound to the arguments, helper locals renamed on collision).  The copy
@@ -138,9 +138,11 @@ def expand_private_calls(repo, rel, func):
         elif isinstance(st, ast.Assign) and len(st.targets) == 1 \
                 and isinstance(st.value, ast.Call):
             callee = _private_callee(repo, rel, func, st.value)
+        elif isinstance(st, ast.Return) and isinstance(st.value, ast.Call):
+            callee = _private_callee(repo, rel, func, st.value)
         else:
             continue
-        if callee is not None:
+        if callee is not None and callee.name not in keep:
             sites.append((st, callee))
     if not sites:
         return func
@@ -236,7 +238,7 @@ def _inline_body(st, callee, caller_names, func):
             return None
         tail = rets[0].value
         body = body[:-1]
-    elif isinstance(st, ast.Assign):
+    elif isinstance(st, (ast.Assign, ast.Return)):
         return None
     # renaming: parameters bound to an equally named plain name stay;
     # everything else the helper binds gets a suffix when it collides
@@ -262,6 +264,9 @@ def _inline_body(st, callee, caller_names, func):
     if tail is not None and isinstance(st, ast.Assign):
         out.append(ast.Assign(targets=[_clone(st.targets[0])],
                               value=_clone(tail), lineno=st.lineno,
+                              col_offset=st.col_offset))
+    elif tail is not None and isinstance(st, ast.Return):
+        out.append(ast.Return(value=_clone(tail), lineno=st.lineno,
                               col_offset=st.col_offset))
     elif tail is not None and not isinstance(tail, (ast.Constant, ast.Name)):
         out.append(ast.Expr(value=_clone(tail), lineno=st.lineno,
@@ -796,21 +801,53 @@ def _weighted_mean(ctx, pv, node, lab, table):
 # R20.2
 
 def reader_table(cls, repo=None, rel=None):
-    """{method name: (uname, reducer)} from `_fetch_ufunc_attr("x", f)`;
-    a plain name is resolved through the module-level constants"""
-    def lit(e):
-        v = const_str(e)
-        if v is None and isinstance(e, ast.Name) and repo is not None:
-            m = repo.module_assign(rel, e.id, missing_ok=True)
-            v = const_str(m) if m is not None else None
-        return v
+    """{method name: (uname, reducer, call)} from `_fetch_ufunc_attr("x",
+    f)`.  Calls that go through a private helper of the class are followed
+    (one level); names are resolved through single-assignment locals and
+    module-level constants, `TABLE[key]` through a module-level / local
+    dict literal."""
+    def resolve(e, f, depth=0):
+        if depth > 5 or e is None:
+            return e
+        if isinstance(e, ast.Name):
+            defs = [n for n in walk(f) if isinstance(n, ast.Assign)
+                    and any(isinstance(t, ast.Name) and t.id == e.id
+                            for t in n.targets)]
+            params = {a.arg for a in f.args.args}
+            if len(defs) == 1:
+                return resolve(defs[0].value, f, depth + 1)
+            if not defs and e.id not in params and repo is not None:
+                m = repo.module_assign(rel, e.id, missing_ok=True)
+                if m is not None:
+                    return resolve(m, f, depth + 1)
+            return e
+        if isinstance(e, ast.Subscript):
+            table = resolve(e.value, f, depth + 1)
+            key = const_str(resolve(e.slice, f, depth + 1))
+            if isinstance(table, ast.Dict) and key is not None:
+                for k, v in zip(table.keys, table.values):
+                    if const_str(k) == key:
+                        return resolve(v, f, depth + 1)
+                raise AnalysisError(f"{cls.name}: no entry '{key}' in "
+                                    f"`{short(e.value, 30)}`")
+            return e
+        return e
     out = {}
-    for f in cls.body:
-        if isinstance(f, ast.FunctionDef):
-            for c in find_calls(f, attr="_fetch_ufunc_attr"):
-                if len(c.args) == 2 and lit(c.args[0]):
-                    out[f.name] = (lit(c.args[0]),
-                                   _np(dotted(c.args[1])), c)
+    for f0 in cls.body:
+        if not isinstance(f0, ast.FunctionDef) or f0.name not in NAMES:
+            continue
+        f = expand_private_calls(repo, rel, f0, keep=("_fetch_ufunc_attr",)) \
+            if repo is not None else f0
+        for c in find_calls(f, attr="_fetch_ufunc_attr"):
+            if len(c.args) != 2:
+                continue
+            key = const_str(resolve(c.args[0], f))
+            red = _np(dotted(resolve(c.args[1], f)))
+            if key is None or red is None:
+                raise AnalysisError(
+                    f"{cls.name}.{f0.name}: arguments of "
+                    f"`{short(c, 50)}` cannot be resolved")
+            out[f0.name] = (key, red, c)
     return out
 
 
@@ -892,6 +929,76 @@ def r202(ctx, repo, wtable, wn):
 
 # ----------------------------------------------------------------------
 # R20.3
+
+def _plain_statements(f, cls):
+    """copy of `f` with `if (x := e) …:` written as `x = e; if x …:` and
+    chained assignments `a = b[k] = e` as `a = e; b[k] = a`"""
+    def first_walrus(e):
+        if isinstance(e, ast.NamedExpr):
+            return e
+        if isinstance(e, ast.Compare):
+            return first_walrus(e.left)
+        if isinstance(e, ast.BoolOp):
+            return first_walrus(e.values[0])
+        if isinstance(e, ast.UnaryOp):
+            return first_walrus(e.operand)
+        return None
+    needs = any(isinstance(n, ast.NamedExpr) or (
+        isinstance(n, ast.Assign) and len(n.targets) > 1) for n in walk(f))
+    if not needs:
+        return f
+    new = _clone(f)
+
+    def repl(root, ne):
+        for n in ast.walk(root):
+            for fld, val in ast.iter_fields(n):
+                if val is ne:
+                    setattr(n, fld, ast.copy_location(ast.Name(
+                        id=ne.target.id, ctx=ast.Load()), ne))
+                elif isinstance(val, list):
+                    for i, x in enumerate(val):
+                        if x is ne:
+                            val[i] = ast.copy_location(ast.Name(
+                                id=ne.target.id, ctx=ast.Load()), ne)
+
+    def process(stmts):
+        out = []
+        for st in stmts:
+            for fld in ("body", "orelse", "finalbody"):
+                if isinstance(getattr(st, fld, None), list) and not \
+                        isinstance(st, (ast.FunctionDef, ast.ClassDef)):
+                    setattr(st, fld, process(getattr(st, fld)))
+            if isinstance(st, (ast.If, ast.While)) and isinstance(st, ast.If):
+                ne = first_walrus(st.test)
+                while ne is not None and isinstance(ne.target, ast.Name):
+                    out.append(ast.copy_location(ast.Assign(
+                        targets=[ast.Name(id=ne.target.id, ctx=ast.Store())],
+                        value=ne.value), st))
+                    if st.test is ne:
+                        st.test = ast.copy_location(ast.Name(
+                            id=ne.target.id, ctx=ast.Load()), ne)
+                    else:
+                        repl(st.test, ne)
+                    ne = first_walrus(st.test)
+            if isinstance(st, ast.Assign) and len(st.targets) > 1:
+                names = [t for t in st.targets if isinstance(t, ast.Name)]
+                if names:
+                    lead = names[0]
+                    out.append(ast.copy_location(ast.Assign(
+                        targets=[lead], value=st.value), st))
+                    for t in st.targets:
+                        if t is not lead:
+                            out.append(ast.copy_location(ast.Assign(
+                                targets=[t], value=ast.Name(
+                                    id=lead.id, ctx=ast.Load())), st))
+                    continue
+            out.append(st)
+        return out
+    new.body = process(new.body)
+    ast.fix_missing_locations(new)
+    _relink(new, cls)
+    return new
+
 
 def _is_cache_lookup(e):
     """self._ufunc_attrs.get(K[, None]) or a load of self._ufunc_attrs[K]"""
@@ -983,6 +1090,7 @@ def check_fetch(ctx, rel, cls, cname):
     if len(params) != 3:
         raise AnalysisError(f"{cname}._fetch_ufunc_attr signature changed")
     _, uname, ufunc = params
+    f = _plain_statements(f, cls)
     keys = _cache_lookup_keys(f)
     f = _localise_cache(f, uname, cls)
     cfg = CFG(f)
@@ -1684,6 +1792,37 @@ def _copier_table_as_constant(src):
         '    (np.nanmax, "max"),\n    (np.nanmean, "mean"),\n)\n' + head)
 
 
+def _summary_table_helper(src, min_func="np.nanmin"):
+    """H5ScalarEvent.min/max/mean through a private method and a
+    module-level name -> function table"""
+    edits = [
+        ('        return self._fetch_ufunc_attr("max", np.nanmax)\n',
+         '        return self._summary("max")\n'),
+        ('        return self._fetch_ufunc_attr("mean", np.nanmean)\n',
+         '        return self._summary("mean")\n'),
+        ('        return self._fetch_ufunc_attr("min", np.nanmin)\n',
+         '        return self._summary("min")\n'),
+        ("    def max(self, *args, **kwargs):\n",
+         "    def _summary(self, uname):\n"
+         "        return self._fetch_ufunc_attr(uname, "
+         "_SCALAR_SUMMARY_UFUNCS[uname])\n\n"
+         "    def max(self, *args, **kwargs):\n"),
+        ("\n\nclass H5ContourEvent:\n",
+         '\n\n_SCALAR_SUMMARY_UFUNCS = {\n    "max": np.nanmax,\n'
+         '    "mean": np.nanmean,\n    "min": ' + min_func + ',\n}\n'
+         "\n\nclass H5ContourEvent:\n"),
+    ]
+    for old, new in edits:
+        if src.count(old) != 1:
+            return src
+        src = src.replace(old, new)
+    return src
+
+
+def _summary_table_min_is_max(src):
+    return _summary_table_helper(src, min_func="np.nanmax")
+
+
 MUTANTS = [
     # R20.1
     ("writer: max of a block with np.max", WR,
@@ -1728,6 +1867,16 @@ MUTANTS = [
      ("            self._ufunc_attrs[uname] = val\n        return val\n",
       "            self._ufunc_attrs[uname] = val\n"
       '        return self._ufunc_attrs["min"]\n'), "R20.3"),
+    ("walrus form caches the value under another name", EV,
+     ("        val = self._ufunc_attrs.get(uname, None)\n"
+      "        if val is None:\n"
+      "            val = ufunc(self.__array__())\n"
+      "            self._ufunc_attrs[uname] = val\n",
+      "        if (val := self._ufunc_attrs.get(uname)) is None:\n"
+      '            val = self._ufunc_attrs["max"] = ufunc(self.__array__())\n'),
+     "R20.3"),
+    ("summary table maps 'min' to np.nanmax", EV,
+     _summary_table_min_is_max, "R20.2"),
     ("H5ScalarEvent caches under a fixed name", EV,
      ("self._ufunc_attrs[uname] = val", 'self._ufunc_attrs["min"] = val'),
      "R20.3"),
@@ -1876,6 +2025,16 @@ TWINS = [
       "        if self._ufunc_attrs.get(uname) is None:\n"
       "            self._ufunc_attrs[uname] = ufunc(self.__array__())\n"
       "        return self._ufunc_attrs[uname]\n")),
+    ("H5ScalarEvent lookup with walrus and chained assignment", EV,
+     ("        val = self._ufunc_attrs.get(uname, None)\n"
+      "        if val is None:\n"
+      "            val = ufunc(self.__array__())\n"
+      "            self._ufunc_attrs[uname] = val\n",
+      "        if (val := self._ufunc_attrs.get(uname)) is None:\n"
+      "            val = self._ufunc_attrs[uname] = ufunc(self.__array__())\n"
+      )),
+    ("H5ScalarEvent summaries through _summary() and a module-level table",
+     EV, _summary_table_helper),
 ]
 
 # mutants that re-introduce the repaired defects (apply to the fixed tree)
